@@ -828,7 +828,7 @@ func AdoptSession(p Persistence, c *Config) (client *Client, warn []error, fatal
 	// — MQTT Version 3.1.1, conformance statement MQTT-4.4.0-1
 	var publishAtLeastOnceKeys, publishExactlyOnceKeys, publishReleaseKeys []uint
 	for _, key := range keys {
-		if key == clientIDKey || key&remoteIDKeyFlag != 0 {
+		if key == clientIDKey {
 			continue
 		}
 		value, err := p.Load(key)
@@ -846,6 +846,9 @@ func AdoptSession(p Persistence, c *Config) (client *Client, warn []error, fatal
 			}
 
 			continue
+		}
+		if key&remoteIDKeyFlag != 0 {
+			continue // inbound; nothing to resend
 		}
 
 		storeOrderPerKey[key] = storageSeqNo
